@@ -84,6 +84,23 @@ theorem yield_exprNodes (es : List Expr) (G : Nat) (hw : es.all recW = true)
   simp only [Function.comp, exprNode, yieldT_nd, yieldL_cons, yieldL_nil, List.append_nil]
   exact (Hrec e G ((List.all_eq_true.1 hw) e he) (by omega)).symm
 
+theorem yield_tMap (kvs : List (String × Expr)) (G : Nat) (hw : wMap recW kvs = true) (hG : size (tMap N recT kvs) ≤ G) :
+    eExpr G (.map kvs) = yieldT (tMap N recT kvs) := by
+  simp only [wMap, Bool.and_eq_true, List.all_eq_true] at hw
+  simp only [tMap, size_nd, sizeL_cons', sizeL_append, size_lf, sizeL_nil'] at hG
+  obtain ⟨G', rfl⟩ : ∃ G', G = G' + 1 := ⟨G - 1, by omega⟩
+  have hsz := sizeL_joinGroups_ge (N.lf "T__6" ",") (kvs.map (mapEntry N recT))
+  have hy : kvs.map (fun p => [escapeKeyTok p.1, ":"] ++ eExpr G' p.2) = (kvs.map (mapEntry N recT)).map yieldL := by
+    rw [List.map_map]
+    apply List.map_congr_left
+    intro p hp
+    have h1 := sizeL_mapEntries_mem N recT kvs p hp
+    have h2 := Hrec p.2 G' (hw.1 p hp).2 (by omega)
+    simp [mapEntry, schemaName, symName, exprNode, escapeKeyTok_simple p.1 (hw.1 p hp).1, h2]
+  rw [eExpr]
+  simp only [hy, tMap, yieldT_nd, yieldL_cons, yieldL_append, yieldL_nil, yieldT_lf, yieldL_joinGroups, commaSep_eq]
+  simp
+
 theorem yield_tAtom (e : Expr) (G : Nat) (hw : wAtom recW e = true) (hG : size (tAtom N recT e) ≤ G) :
     eExpr G e = yieldT (tAtom N recT e) := by
   cases e with
@@ -113,20 +130,9 @@ theorem yield_tAtom (e : Expr) (G : Nat) (hw : wAtom recW e = true) (hG : size (
     have hy := yield_exprNodes recT recW Hrec es G' hw (by omega)
     simp [eExpr, tAtom, tAtomInner, yieldL_interleave, hy, commaSep, sepBy]
   | map kvs =>
-    simp only [wAtom, wMap, Bool.and_eq_true, List.all_eq_true] at hw
-    simp only [tAtom, tAtomInner, tMap, size_nd, sizeL_cons', sizeL_append, size_lf, sizeL_nil'] at hG
-    obtain ⟨G', rfl⟩ : ∃ G', G = G' + 1 := ⟨G - 1, by omega⟩
-    have hsz := sizeL_joinGroups_ge (N.lf "T__6" ",") (kvs.map (mapEntry N recT))
-    have hy : kvs.map (fun p => [escapeKeyTok p.1, ":"] ++ eExpr G' p.2) = (kvs.map (mapEntry N recT)).map yieldL := by
-      rw [List.map_map]
-      apply List.map_congr_left
-      intro p hp
-      have h1 := sizeL_mapEntries_mem N recT kvs p hp
-      have h2 := Hrec p.2 G' (hw.1 p hp).2 (by omega)
-      simp [mapEntry, schemaName, symName, exprNode, escapeKeyTok_simple p.1 (hw.1 p hp).1, h2]
-    rw [eExpr]
-    simp only [hy, tAtom, tAtomInner, tMap, yieldT_nd, yieldL_cons, yieldL_append, yieldL_nil, yieldT_lf, yieldL_joinGroups, commaSep_eq]
-    simp
+    simp only [wAtom] at hw
+    have := yield_tMap recT recW Hrec kvs G hw (by simp only [tAtom, tAtomInner, size_nd, sizeL_cons', sizeL_nil'] at hG; omega)
+    simp [this, tAtom, tAtomInner]
   | paren x =>
     simp only [wAtom] at hw
     simp only [tAtom, tAtomInner, exprNode, size_nd, sizeL_cons', size_lf, sizeL_nil'] at hG
